@@ -33,4 +33,11 @@ PROPS = {
         "floors": {"evaluations": 10000, "classes": 100},
         "assumptions": ["MdnsManager.Start provider selection replaced by the VerifAttach hook (fake provider)"],
     },
+    "C08": {
+        "level": EXPL,
+        "plan": [{"engine": "shipsim1", "timeout": {"quick": 900, "thorough": 3000}}],
+        "rule": "x",
+        "floors": {"evaluations": 1000, "classes": 50},
+        "crash_decides": True,
+    },
 }
